@@ -20,10 +20,7 @@ Theorem c06_atomic : forall st c e st',
   st_probing st' = st_probing st /\
   (st_disk st' = st_disk st \/
    (st_disk st = None /\ st_services st' = [] /\ st_disk st' = Some (st_services st'))).
-Proof.
-  intros st c e st' Hr H. repeat split;
-    [eapply exec_err_services|eapply exec_err_probing|eapply exec_err_disk]; eauto using reachable_inv.
-Qed.
+Proof. exact exec_err_atomic. Qed.
 
 (** (1) and (2) do not even need reachability. *)
 Theorem c06_atomic_any_state : forall st c e st',
@@ -55,6 +52,14 @@ Proof.
   exists init_state, (Remove (bs "nope")), ENotFound, (mkState [] [] (Some [])).
   split; [exists []; reflexivity|]. split; [reflexivity|]. cbn. discriminate.
 Qed.
+
+(** `rollout deploy` is never refused for a host conflict: the service it
+    re-installs already owns its (host, prefix) pairs.  (The code updates the
+    live service's rollout slot before installing; by this theorem that update
+    is never left half done.) *)
+Theorem c06_rollout_deploy_never_conflicts : forall st name targets,
+  reachable fixed st -> fst (exec fixed st (RolloutDeploy name targets)) <> Err EHostInUse.
+Proof. exact rollout_deploy_no_conflict. Qed.
 
 (** A command that panics leaves the state as given (any variant). *)
 Theorem c06_panic_unchanged : forall v st c st', exec v st c = (Panic, st') -> st' = st.
@@ -129,6 +134,7 @@ Print Assumptions c06_serve_unchanged.
 Print Assumptions c06_list_unchanged.
 Print Assumptions c06_saved_partial.
 Print Assumptions c06_saved_refuted.
+Print Assumptions c06_rollout_deploy_never_conflicts.
 Print Assumptions c06_panic_unchanged.
 Print Assumptions c06_error_classes.
 Print Assumptions c06_refuted_pinned_D4.
